@@ -47,6 +47,10 @@ class Check:
         self.conformance_runs = 0
         self.known = load_known(prop)
         self.replay_dir = os.path.join(VERIF, 'replays', prop)
+        if os.path.isdir(self.replay_dir) and not os.environ.get('VERIF_KEEP_REPLAYS'):
+            for f in os.listdir(self.replay_dir):          # replay files describe THIS run only
+                if f.endswith('.json'):
+                    os.unlink(os.path.join(self.replay_dir, f))
 
     # ------------------------------------------------------------------ accounting
     def count(self, backend, status, secs, name=None, size=None):
